@@ -295,7 +295,10 @@ package lazy
 
 //@ trusted func (*DFA).getStartState
 //@   modifies @searchState
+// ancAcc(d, h, at): "a match of the pattern starts exactly at `at`" as the anchored forward search decides it (ASSUMED)
+//@ uninterpreted spec func ancAcc(d *DFA, h []byte, at int) bool
 //@ func (*DFA).SearchAtAnchored
+//@   trust ensures (result >= 0) == ancAcc(d, haystack, at)
 //@   props C14
 //@   opt safety=off
 //@   requires d != nil && cache != nil
